@@ -50,10 +50,13 @@ PROOF_UNITS = {
     'C07': _kernel_units('removal') + _kernel_units('accum') + _bulk_units(),
     'C02': [('contracts.queries', 'NumberOfInteractionsPair', (cls,), {'mode': m, 't': t}) for cls in ('DynGraph', 'DynDiGraph')
             for m in ('removal', 'accum') for t in ('int', 'none')]
-           + [u for u in _observer_units('removal') if u[1] == 'HasInteraction'],
+           + [u for u in _observer_units('removal') if u[1] == 'HasInteraction']
+           + [('contracts.iters', 'InteractionsIter', ('DynGraph',), {'t': t}) for t in ('none', 'int')]
+           + [('contracts.iters', 'OutInteractionsIter', ('DynDiGraph',), {'t': t}) for t in ('none', 'int')],
     'C14': [('contracts.pure', 'PathLength', (), {}), ('contracts.pure', 'PathDuration', (), {})],
     'C17': [('contracts.stats', 'EdgeContribution', (), {})],
     'C06': [('contracts.slice', 'TimeSlice', (cls,), {'t_to': t}) for cls in ('DynGraph', 'DynDiGraph') for t in ('int', 'none')]
+           + [('contracts.iters', 'InteractionsIter', ('DynGraph',), {'t': 'none'}), ('contracts.iters', 'OutInteractionsIter', ('DynDiGraph',), {'t': 'none'})]
            + [('contracts.ctor', 'Init', (cls,), {'edge_removal': e}) for cls in ('DynGraph', 'DynDiGraph') for e in ('default', 'given')],
     'C08': _kernel_units('accum') + _observer_units('accum'),
     'C18': [('contracts.pure', 'CompactTimeslot', (), {})],
